@@ -5,6 +5,8 @@ use crate::drv::{whole, Drv};
 use crate::scen::c08::kset;
 use serde_json::json;
 
+pub const FORMATS: [&str; 7] = ["json", "bincode", "json_value", "json_reader", "json_slice", "bincode_reader", "json_pretty"];
+
 pub fn run<A: Cx>(d: &mut Drv<A>, scale: usize, all: bool) {
     let w = A::BITS as usize;
     for _ in 0..scale.max(1) {
@@ -44,7 +46,7 @@ pub fn run<A: Cx>(d: &mut Drv<A>, scale: usize, all: bool) {
         }
         d.emit(json!({"op": "new", "dst": 5, "c": A::NAME, "via": "new", "cap": 0}));
         for r in 0..6 {
-            for fmt in ["json", "bincode"] {
+            for fmt in FORMATS {
                 d.emit(json!({"op": "serde", "dst": 8 + (r % 4), "r": r, "fmt": fmt}));
                 // the copy is a full citizen: edit it, original untouched
                 if d.rng.chance(1, 3) {
